@@ -29,7 +29,7 @@ REQUIRED = ["op.add", "op.assign-all", "op.assign-ids", "op.assign-times", "op.a
             "shape.Polygon", "shape.ShapeGroup", "obstacle.static", "obstacle.dynamic-trajectory", "obstacle.dynamic-none",
             "straddling(centre-lanelets<shape-lanelets)", "inv-g-checked", "inv-r-checked", "op.move",
             "centre-on-a-lanelet-the-occupancy-does-not-touch", "scripted-history", "op.shorten-prediction",
-            "dynamic-obstacle-entering-after-step-0"]
+            "dynamic-obstacle-entering-after-step-0", "turning-on-the-spot"]
 EXHAUSTIVE = {"quick": "all histories of length <= 2 over the 10-operation alphabet on a fixed 2-obstacle universe",
               "thorough": "all histories of length <= 3 over the 10-operation alphabet on a fixed 2-obstacle universe"}
 ASSUMPTIONS = ["set-based predictions are outside the quantifier", "obstacles are added after the network exists",
@@ -368,6 +368,35 @@ def run(ctx):
             ctx.fingerprint(["scripted", i, [[o, a] for o, a in sh]])
             ctx.feature("scripted-history")
             run_history(rng, lanelets, obs, sh, "scripted")
+    # ------------------------------------------------------------------- fixed universe: turning on the spot
+    # two adjacent lanes; a long vehicle stands in the middle of lane 1 and turns without moving: heading 0 keeps it inside
+    # lane 1, heading pi/2 makes it reach into lane 2 (same position at consecutive time steps, different lanelet sets)
+    from commonroad.geometry.shape import Rectangle
+    from commonroad.prediction.prediction import TrajectoryPrediction
+    from commonroad.scenario.lanelet import Lanelet
+    from commonroad.scenario.obstacle import ObstacleType
+    from commonroad.scenario.state import InitialState, KSState
+    from commonroad.scenario.trajectory import Trajectory
+    for i, rng in ctx.cases("turning-on-the-spot", ctx.pick(6, 200)):
+        x0, y0 = float(rng.randint(-40, 40)), float(rng.randint(-40, 40))
+        xs = np.array([x0, x0 + 10.0, x0 + 20.0])
+        bd = [np.column_stack([xs, np.full(3, y0 + 3.0 * k)]) for k in range(3)]
+        lanes = [Lanelet(bd[1], (bd[0] + bd[1]) / 2, bd[0], 1, adjacent_left=2, adjacent_left_same_direction=True),
+                 Lanelet(bd[2], (bd[1] + bd[2]) / 2, bd[1], 2, adjacent_right=1, adjacent_right_same_direction=True)]
+        pos = np.array([x0 + 10.0, y0 + 1.5])
+        headings = [[0.0, math.pi / 2, math.pi / 2, 0.0], [math.pi / 2, 0.0, 0.0, math.pi / 2], [0.0, 0.0, math.pi / 2, 0.0]][i % 3]
+        shape = Rectangle(4.5, 0.5)
+        ob = DynamicObstacle(101, ObstacleType.TRUCK, shape, InitialState(time_step=0, position=pos.copy(),
+                                                                           orientation=headings[0], velocity=0.0),
+                             TrajectoryPrediction(Trajectory(1, [KSState(time_step=t, position=pos.copy(), orientation=h,
+                                                                         velocity=0.0, steering_angle=0.0)
+                                                                 for t, h in enumerate(headings[1:], 1)]), shape))
+        ctx.feature("turning-on-the-spot")
+        for sh in ([("add", 101), ("assign-all", None), ("remove", 101)],
+                   [("add", 101), ("assign-times", (1, 2)), ("assign-all", None)],
+                   [("add", 101), ("assign-ids", 101), ("move", 101), ("assign-all", None)]):
+            ctx.fingerprint(["turning", i, [[o, a] for o, a in sh]])
+            run_history(rng, lanes, [ob], sh, "turning")
     # -------------------------------------------------------------------------------------------- random histories
     n = ctx.pick(120, 50000)
     for i, rng in ctx.cases("random", n):
